@@ -509,6 +509,53 @@ class BaseChannel:
             return re.compile(bytes_pattern, flags=re.M | re.I)
         return re.compile(re.escape(bytes_pattern))
 
+    def _interaction_complete(
+        self,
+        buf: bytes,
+        channel_response: str,
+        interaction_complete_patterns: Optional[List[str]],
+    ) -> bool:
+        """
+        Check if the output read for an interact event ended the interactive "session"
+
+        The interactive session has ended if the output matched one of the
+        `interaction_complete_patterns` instead of the response the event was expecting. When that
+        happens the remaining interact events must not be sent -- the device is no longer asking
+        for them (ex: a device that does not prompt for a password after "enable").
+
+        Args:
+            buf: output read from the channel for the current interact event
+            channel_response: the response the current interact event was expecting
+            interaction_complete_patterns: list of patterns, that if seen, indicate the interactive
+                "session" has ended
+
+        Returns:
+            bool: True if the interactive session has ended
+
+        Raises:
+            N/A
+
+        """
+        if not interaction_complete_patterns:
+            return False
+
+        class_pattern = self._base_channel_args.comms_prompt_pattern
+        search_buf = self._process_read_buf(read_buf=BytesIO(buf))
+
+        if re.search(
+            pattern=self._get_prompt_pattern(class_pattern=class_pattern, pattern=channel_response),
+            string=search_buf,
+        ):
+            return False
+
+        return any(
+            re.search(
+                pattern=self._get_prompt_pattern(class_pattern=class_pattern, pattern=pattern),
+                string=search_buf,
+            )
+            for pattern in interaction_complete_patterns
+        )
+
     def _pre_channel_authenticate_ssh(
         self,
     ) -> Tuple[Pattern[bytes], Pattern[bytes], Pattern[bytes]]:
